@@ -214,6 +214,7 @@ class Probe(object):
         if len(keyed) != len(runs):
             raise ValueError('command lines do not identify runs')
         self.runs = []
+        self.run_objs = []
         self.builds = []
         self.benches = []
         for cmd in sorted(keyed):
@@ -229,6 +230,7 @@ class Probe(object):
                   str(run.benchmark.extra_args), run.benchmark.suite.executor.action)
             if bk not in self.benches:
                 self.benches.append(bk)
+            self.run_objs.append(run)
             self.runs.append({
                 'cmd': cmd, 'cols': run.as_str_list(0)[:-1], 'bench': self.benches.index(bk),
                 'bench_name': run.benchmark.name,
@@ -372,6 +374,8 @@ def run_real_session(wd, probe, argv, script, random_choice=None):
 
     def grab(self, runs, *a, **kw):
         order['runs'] = [probe.run_index_of_cmd(r.cmdline()) for r in runs]
+        order['loaded'] = {probe.run_index_of_cmd(r.cmdline()): (r.completed_invocations,
+                                                                 r.get_number_of_data_points()) for r in runs}
         return orig(self, runs, *a, **kw)
     rb_main.ReBench.execute_experiment = grab
     try:
@@ -387,6 +391,7 @@ def run_real_session(wd, probe, argv, script, random_choice=None):
     ob.raw_starts = res.starts
     ob.kills = res.kills
     ob.order = order.get('runs')
+    ob.loaded = order.get('loaded')
     ob.stdout = res.stdout
     ob.stderr = res.stderr
     ob.files = [read_text(os.path.join(wd, f)) for f in probe.files]
